@@ -14,7 +14,7 @@ ASSUMPTIONS = [
 
 # antecedent tags that must have fired at least once, else the run is vacuous (tool error)
 REQUIRED = {
-    "C01": ["swap", "remainder", "return"],
+    "C01": ["swap", "remainder", "return", "reserve_beyond_64_bits", "decimals_18"],
     "C02": ["open_position", "close_position", "reversal", "liquidate", "failed"],
     "C03": ["moved", "native", "cw20", "fee", "liquidation"],
     "C04": ["whole_close", "profit", "loss"],
@@ -29,7 +29,7 @@ REQUIRED = {
     "C14": ["paused", "closed", "unregistered", "shutdown", "registry_query"],
     "C15": ["open_in_band", "whole_close"],
     "C16": ["restricted", "bystander_same_block", "later_block", "liquidation"],
-    "C17": ["swap_input", "swap_output", "quoted", "limit_met", "limit_rejected", "engine_limit"],
+    "C17": ["swap_input", "swap_output", "quoted", "limit_met", "limit_rejected", "engine_limit", "reserve_beyond_64_bits"],
     "C18": ["vamm_twap", "several_prices_in_window", "snapshot_written", "feed_get_twap_price", "feed_get_price"],
     "C20": ["capped_open_ok", "cap_rejected", "config_accepted", "config_rejected", "registered"],
 }
